@@ -2,9 +2,9 @@
 Driver for C18.  One request per line, fields separated by `|`, tokens inside a field by single spaces.
 
   R|<ty1>|<ty2>                  → `restr=<0|1> flat=<0|1>`
-        is_sequence_type_restriction(ty1, ty2) by the model; flat = both types are in the region where
-        the string-driven code and the AST agree by construction (see `Ty.flat`)
-  J|<xsd11 0/1>[|<dflt> <p> <q>]|<ty>|<value>     (optional: statically known namespaces, see `NsCfg`)  → `match=<r> inst=<r> treat=<r> spec=<T|F|-> dom=<0|1> fp=<0|1>`
+        is_sequence_type_restriction(ty1, ty2) by the model; flat = no typed function / map test among the parameters of
+        any function test of the two types (`Ty.flat`; statistics only)
+  J|<xsd11 0/1>[|<dflt> <p> <q>]|<ty>|<value>     (optional: statically known namespaces, see `NsCfg`)  → `match=<r> inst=<r> treat=<r> spec=<T|F|-> dom=<0|1> fk=<0|1> param=<r>`
         r = T | F | E:<code>;  match = match_sequence_type, inst = `instance of`, treat = `treat as`
         (T = the operand is returned, F = XPDY0050),
         spec = SequenceType matching of XPath 3.1 with the model's restriction as subtype relation
@@ -170,7 +170,7 @@ def judge (x : String) (cfg : NsCfg) (t v : String) : String :=
       let pr := match convertParam tables xsd11 ty val with
           | .ok w => if w.length == val.length then "T" else "A"     -- A: accepted after atomization of arrays
           | .error .XPDY0050 => "F" | .error e => showRes (.error e)
-      s!"match={showRes m} inst={showRes i} treat={tr} spec={sp} dom={b01 (domT ty val)} fp={b01 ty.parserGap} fk={b01 ty.hasTypeArg} param={pr} fpp={b01 (ty.gapAt true)}"
+      s!"match={showRes m} inst={showRes i} treat={tr} spec={sp} dom={b01 (domT ty val)} fk={b01 ty.hasTypeArg} param={pr}"
   | _, _ => "bad-judgement"
 
 open EPV.Gen.C18 in
@@ -178,7 +178,7 @@ def answer (line : String) : String :=
   match line.splitOn "|" with
   | ["R", a, b] =>
     match parseAll pTy a, parseAll pTy b with
-    | some t1, some t2 => s!"restr={b01 (isRestriction tables t1 t2)} flat={b01 (t1.flat && t2.flat)} osr={b01 (!(t1.oldSplitOK && t2.oldSplitOK))}"
+    | some t1, some t2 => s!"restr={b01 (isRestriction tables t1 t2)} flat={b01 (t1.flat && t2.flat)}"
     | _, _ => "bad-type"
   | ["J", x, t, v] => judge x NsCfg.none t v
   | ["J", x, c, t, v] =>
